@@ -636,7 +636,7 @@ func TestVerifDial(t *testing.T) {
 	}
 	// random longer scripts
 	rr := r.Rand("dial", prop)
-	n := r.Pick(1500, 20000)
+	n := r.Pick(1500, 100000)
 	for i := 0; i < n; i++ {
 		var d, tk strings.Builder
 		for k, m := 0, 1+rr.Intn(60); k < m; k++ {
